@@ -94,16 +94,18 @@ directive @tag(name: String!, w: Float) on FIELD | QUERY
 // either), a union and an interface with (DogOrHuman / Walker, Swimmer) and
 // without (DogOrHuman / Flyer, CatOrAlien / Swimmer) a common possible type, two
 // interfaces with (Walker / Swimmer: Dog) and without (Walker / Flyer, Swimmer /
-// Flyer) a common implementer. Kept tiny: it is explored with smaller bounds.
+// Flyer) a common implementer. Walker also serves the three-way response name
+// conflicts (a field with an argument on the interface, a second Int field on one
+// implementer). Kept tiny: it is explored with smaller bounds.
 const sdl3 = `
 schema { query: Q }
 type Q { dh: DogOrHuman ca: CatOrAlien dc: DogOrCat w: Walker sw: Swimmer fl: Flyer }
-interface Walker { legs: Int }
+interface Walker { legs: Int step(n: Int): Int }
 interface Swimmer { fins: Int }
 interface Flyer { wings: Int }
-type Dog implements Walker & Swimmer { legs: Int fins: Int }
-type Human implements Walker { legs: Int }
-type Cat implements Walker { legs: Int }
+type Dog implements Walker & Swimmer { legs: Int step(n: Int): Int fins: Int }
+type Human implements Walker { legs: Int step(n: Int): Int }
+type Cat implements Walker { legs: Int step(n: Int): Int }
 type Alien implements Flyer { wings: Int }
 type Fish implements Swimmer { fins: Int }
 union DogOrHuman = Dog | Human
